@@ -403,6 +403,12 @@ func Run(cfg *hx.Config) error {
 	// deterministic burst: consumer gated, one goroutine posts capacity+200 closures
 	emit("burst", burst(1, capQ+200), map[string]bool{"burst": true})
 	emit("burst", burst(3, capQ+200), map[string]bool{"burst": true})
+	// the registry under concurrency (service creation racing with lookups by name)
+	regTrials := 400
+	if thorough {
+		regTrials = 4000
+	}
+	emit("registry-race", []hx.T{hx.C("OConcReg", regTrials, 8)}, nil)
 	// RunService with slow closures (heavy-frame accounting) and detailed perf logging
 	emit("runservice-slow", []hx.T{hx.C("OConcN", 4, 3, 40)}, map[string]bool{"slow-closures": true})
 	nFull, nConc, nBig := 12, 40, 1
